@@ -6,7 +6,7 @@ import subprocess
 
 from . import refinterp as I
 from . import refparse as P
-from .common import HYEONG, WORK, Stats, Violation, collect, finish, pmap, child_setup, strip_sgr, run_chunked
+from .common import HYEONG, WORK, Stats, Violation, collect, finish, pmap, child_setup, strip_sgr, run_chunked, hang_storm
 from .eng_optdiff import big, push_value
 
 FRAGS = [b'\xed\x98\x95', b'\xed\x95\xad.', b'\xed\x9d\x91', b'\xed\x9d\x91.', b'?', b'\xe2\x99\xa5', b'\n', b'a', b'\x00',
@@ -99,6 +99,7 @@ def judge(st, case, rc, out, err, expect):
     """expect: 'error' (must be status 1 + [error]) | 'ok' (status 0) | predicted ending | None (totality only)"""
     problems = []
     if rc == 'timeout':
+        st.inc('hangs')
         problems.append('did not finish in 30 s')
     elif rc not in (0, 1):
         problems.append('exit status %r' % rc)
@@ -132,6 +133,10 @@ def content_task(contents, tag):
     os.makedirs(d, exist_ok=True)
     path = os.path.join(d, 'x.hyeong')
     for data in contents:
+        if st.n.get('hangs', 0) >= 3 or hang_storm():
+            hang_storm(raise_it=st.n.get('hangs', 0) >= 3)
+            st.inc('skipped_after_hangs')
+            continue        # three executions ran into the 30 s limit: more of the same would only cost hours
         with open(path, 'wb') as f:
             f.write(data)
         try:
@@ -213,6 +218,10 @@ def names_task():
              ('missing.hyeong', 'error'), ('d.hyeong', 'error'), ('nodir/x.hyeong', 'error'), ('한글 이름.hyeong', 'ok'),
              (b'\xff.hyeong', None), ('', 'error'), ('x.hyeong/', 'error')]
     for name, exp in cases:
+        if st.n.get('hangs', 0) >= 3 or hang_storm():
+            hang_storm(raise_it=st.n.get('hangs', 0) >= 3)
+            st.inc('skipped_after_hangs')
+            continue
         for sub in (['run', '-O0'], ['run', '-O1'], ['run', '-O2'], ['check'], ['--verbose', 'run', '-O2'], ['--verbose', 'check'],
                     ['run'], ['run', '--optimize', '1'], ['run', '--optimize=2'], ['run', '-O', '2'], ['run', '-O2', 'COLOUR'],
                     ['check', 'COLOUR']):
@@ -286,6 +295,10 @@ def special_task(texts):
     os.makedirs(d, exist_ok=True)
     path = os.path.join(d, 'x.hyeong')
     for text in texts:
+        if st.n.get('hangs', 0) >= 3 or hang_storm():
+            hang_storm(raise_it=st.n.get('hangs', 0) >= 3)
+            st.inc('skipped_after_hangs')
+            continue
         with open(path, 'w', encoding='utf-8') as f:
             f.write(text)
         for sin in (b'', b'ab\n', b'\xff\n'):
@@ -338,6 +351,10 @@ def stdin_task(stdins):
         with open(path, 'w', encoding='utf-8') as f:
             f.write(text)
         for sin in stdins:
+            if st.n.get('hangs', 0) >= 3 or hang_storm():
+                hang_storm(raise_it=st.n.get('hangs', 0) >= 3)
+                st.inc('skipped_after_hangs')
+                continue
             exp = predict(text, sin)
             for lv, chunk in ((0, None), (1, None), (2, None), (0, 1), (2, 3)):
                 rc, out, err = run_bin(['run', '-O%d' % lv, '--color', 'never', path], sin, d, chunk=chunk)
